@@ -82,7 +82,8 @@ Inductive op :=
 | OStall (c ms : Z)                        (* the client stops reading for ms milliseconds from now *)
 | OKey (c v : Z)                           (* set the routing key of c (acknowledged before the next op) *)
 | OProto                                   (* the case runs with the protobuf client serializer (anywhere in the list) *)
-| OSend (c ty n1 n2 tag : Z) (pads : list Z) (rpad mode : Z) (targets : list Z) (later : bool) (kick : Z).
+| OSend (c ty n1 n2 tag : Z) (pads : list Z) (rpad mode : Z) (targets : list Z) (later : bool) (kick : Z)
+        (fill sess : Z).
     (* pipelined request: n1 pushes, the response, n2 pushes.  Push number q is padded with
        [pad_at pads q] bytes (pads is repeated cyclically: sizes vary WITHIN one handler's issue
        sequence; a negative entry = a message without content), the response with rpad bytes.  mode 0: each push goes to the
@@ -93,7 +94,16 @@ Inductive op :=
        the handler completes is no part of it.
        kick <> 0: before anything else the handler kicks connection [kick] (another, connected
        one) - the front-end closes it at once but still holds its session when the pushes that
-       list it are handled; it gets none of them, every other target all of them. *)
+       list it are handled; it gets none of them, every other target all of them.
+       fill: the id list of every multi-target push (mode 1 / 2) names [fill] NEVER-ADDED connection
+       ids before [targets] (a room of hundreds: the listed connections stand at positions
+       fill, fill+1, ... of a list of fill + length targets ids) - the front-end has no session for
+       them and skips them ([id_list] / [served] below; Props.C03_target_count_irrelevant).
+       sess = kind + 4 * place: the handler touches its session (kind 1: Set without PushSession,
+       2: Set + PushSession, 3: Bind without PushSession; place 0: first thing, 1: between the n1
+       pushes and the completion, 2: right after the completion).  Session synchronisation is
+       traffic between the services that is addressed to no connection: no part of what is issued
+       to the clients (Props.C03_session_traffic_irrelevant, C03_other_traffic_harmless). *)
 
 Inductive ev :=
 | EPush (inst tag seq ctr cnt size : Z)    (* cnt consecutive pushes seq.., issue counters ctr.., all padded with size bytes *)
@@ -118,6 +128,15 @@ Definition pushes (i tag : Z) (pads targets : list Z) (from count : Z) : list it
   flat_map (fun q => map (fun t => mkItem i t (if Z.ltb (pad_at pads q) 0 then KEmpty else KPush) tag q (pad_at pads q))
                          targets) (zseq from count).
 
+(* the id list of a multi-target push: [fill] ids nobody ever had (None), then the listed ones *)
+Definition id_list (fill : Z) (targets : list Z) : list (option Z) :=
+  map (fun _ => None) (zseq 0 fill) ++ map Some targets.
+
+(* the connections among the ids the front-end has a live session for, in listing order
+   (impls/sessions.go PushMsg: `if session == nil { continue }`) *)
+Definition served (keep : Z -> bool) (ids : list (option Z)) : list Z :=
+  flat_map (fun o => match o with Some t => if keep t then [t] else [] | None => [] end) ids.
+
 Definition script (i c tag n1 n2 : Z) (pads : list Z) (rpad : Z) (targets : list Z) : list item :=
   pushes i tag pads targets 0 n1 ++ [mkItem i c KResp tag 0 rpad] ++ pushes i tag pads targets n1 n2.
 
@@ -134,7 +153,7 @@ Definition conn_step (cs : alist Z) (o : op) : alist Z :=
   match o with
   | OConn c _ => match aget c cs with None => aset c 0 cs | Some _ => cs end
   | OKey c v => match aget c cs with Some _ => aset c v cs | None => cs end
-  | OStall _ _ | OProto | OSend _ _ _ _ _ _ _ _ _ _ _ => cs
+  | OStall _ _ | OProto | OSend _ _ _ _ _ _ _ _ _ _ _ _ _ => cs
   end.
 
 Definition connected (cs : alist Z) (c : Z) : bool :=
@@ -149,7 +168,7 @@ Definition alive (cs : alist Z) (dead : list Z) (c : Z) : bool :=
 (* the connection a request's handler kicks, if the handler runs and the kick means anything *)
 Definition kicked (cs : alist Z) (dead : list Z) (o : op) : option Z :=
   match o with
-  | OSend c ty _ _ _ _ _ _ _ _ kick =>
+  | OSend c ty _ _ _ _ _ _ _ _ kick _ _ =>
       match aget c cs with
       | Some key =>
           match target ty key with
@@ -170,13 +189,13 @@ Fixpoint issue_from (cs : alist Z) (dead : list Z) (ops : list op) : list item :
   | [] => []
   | o :: r =>
       (match o with
-       | OSend c ty n1 n2 tag pads rpad mode targets _ _ =>
+       | OSend c ty n1 n2 tag pads rpad mode targets _ _ fill _ =>
            if alive cs dead c then
              match aget c cs with
              | Some key =>
                  match target ty key with
                  | Some i => script i c tag n1 n2 pads rpad
-                               (if Z.eqb mode 0 then [c] else filter (alive cs (dead_step cs dead o)) targets)
+                               (if Z.eqb mode 0 then [c] else served (alive cs (dead_step cs dead o)) (id_list fill targets))
                  | None => [mkItem front c KErr 0 0 0]     (* no target: the front answers an error *)
                  end
              | None => []
